@@ -843,8 +843,8 @@ def extract_fn(repo, spec, features):
 
     # ---- R2: `for (i, x) in E.iter().enumerate() { B }`
     #        ->  `let mut i = 0; while i < E.len() { let x = &E[i]; B i += 1; }`
-    # std semantics of Enumerate<slice::Iter>; refused if B contains `continue` (the increment would be
-    # skipped) or if E is not a plain path expression.
+    # std semantics of Enumerate<slice::Iter> (optionally over Zip, optionally Skip); a `continue;` of the
+    # loop itself is rewritten to step the index first; refused if E is not a plain path expression.
     lps0 = [i for i in loops_in(sf, bo + 1, bc) if alive(T[i])]
     for n_ in spec.get('enum_loops', []):
         if n_ - 1 >= len(lps0):
@@ -853,19 +853,44 @@ def extract_fn(repo, spec, features):
         b = find_block_open(sf, li + 1, bc)
         be = sf.pairs[b]
         hdr = T[li:b]
-        # expected token shape: for ( I , X ) in PATH . iter ( ) . enumerate ( )
+        # expected token shapes:
+        #   A: for ( I , X ) in PATH . iter ( ) . enumerate ( ) [ . skip ( K ) ]
+        #   B: for ( I , ( X , Y ) ) in PATH . iter ( ) . zip ( PATH2 ) . enumerate ( ) [ . skip ( K ) ]
+        #      (PATH2 a Vec / &Vec: `zip` takes IntoIterator, a &Vec yields references; Zip stops at the
+        #       shorter side; Enumerate numbers from 0 and Skip(K) drops the first K pairs, so the first
+        #       index seen is K)
         txt = ' '.join(t.text for t in hdr)
-        m = re.fullmatch(r'for \( (\w+) , (\w+) \) in ((?:\w+ \. )*\w+) \. iter \( \) \. enumerate \( \)', txt)
-        if not m:
+        PATH = r'((?:\w+ \. )*\w+)'
+        mA = re.fullmatch(r'for \( (\w+) , (\w+) \) in ' + PATH + r' \. iter \( \) \. enumerate \( \)(?: \. skip \( (\w+) \))?', txt)
+        mB = re.fullmatch(r'for \( (\w+) , \( (\w+) , (\w+) \) \) in ' + PATH + r' \. iter \( \) \. zip \( ' + PATH
+                          + r' \) \. enumerate \( \)(?: \. skip \( (\w+) \))?', txt)
+        if not (mA or mB):
             raise ExtractError(f'R2 does not apply to loop {n_} of {spec["name"]}: {txt}')
-        ivar, xvar, expr = m.group(1), m.group(2), m.group(3).replace(' ', '')
-        if any(is_id(T[k], 'continue') for k in range(b, be)):
-            raise ExtractError(f'R2 refused: loop {n_} of {spec["name"]} contains `continue`')
-        edits.add(T[li].start, T[b].start, f'let mut {ivar} = 0; while {ivar} < {expr}.len() ', 'rewrite', 'R2 header')
-        edits.add(T[b].end, T[b].end, f' let {xvar} = &{expr}[{ivar}];', 'rewrite', 'R2 bind')
+        if mA:
+            ivar, xvar, expr = mA.group(1), mA.group(2), mA.group(3).replace(' ', '')
+            head = f'let mut {ivar} = {mA.group(4) or "0"}; while {ivar} < {expr}.len() '
+            bind = f' let {xvar} = &{expr}[{ivar}];'
+        else:
+            ivar, xvar, yvar = mB.group(1), mB.group(2), mB.group(3)
+            expr, expr2, start = mB.group(4).replace(' ', ''), mB.group(5).replace(' ', ''), mB.group(6) or '0'
+            head = f'let mut {ivar} = {start}; while {ivar} < {expr}.len() && {ivar} < {expr2}.len() '
+            bind = f' let {xvar} = &{expr}[{ivar}]; let {yvar} = &{expr2}[{ivar}];'
+        # `continue` of THIS loop (not of a nested loop) must still step the index
+        nested = []
+        for lj in loops_in(sf, b + 1, be):
+            nb = find_block_open(sf, lj + 1, be)
+            nested.append((nb, sf.pairs[nb]))
+        for k in range(b, be):
+            if is_id(T[k], 'continue') and not any(lo_ < k < hi_ for lo_, hi_ in nested):
+                if not is_p(T[k + 1], ';'):
+                    raise ExtractError(f'R2 refused: labelled/expression `continue` in loop {n_} of {spec["name"]}')
+                edits.add(T[k].start, T[k].start, f'{{ {ivar} += 1; ', 'rewrite', 'R2 continue')
+                edits.add(T[k + 1].end, T[k + 1].end, ' }', 'rewrite', 'R2 continue')
+        edits.add(T[li].start, T[b].start, head, 'rewrite', 'R2 header')
+        edits.add(T[b].end, T[b].end, bind, 'rewrite', 'R2 bind')
         edits.add(T[be].start, T[be].start, f' {ivar} += 1; ', 'rewrite', 'R2 step')
         log.append({'step': 'R2', 'line': sf.line_of(T[li].start), 'before': txt.replace(' ', ''),
-                    'after': f'let mut {ivar} = 0; while {ivar} < {expr}.len() {{ let {xvar} = &{expr}[{ivar}]; .. {ivar} += 1; }}'})
+                    'after': head + '{' + bind + f' .. {ivar} += 1; }} (each `continue;` of this loop -> {{ {ivar} += 1; continue; }})'})
 
     # ---- E5: loops
     lps = [i for i in loops_in(sf, bo + 1, bc) if alive(T[i])]
